@@ -150,9 +150,70 @@ def judge(ctx, case):
                     return
         finally:
             sys.setswitchinterval(old)
+    if not edited_between_pooled_runs(ctx, case, feat, h):
+        return
     if ctx.evals % 97 < 9 and len(ctx.samples) < 4:
         ctx.sample({"kind": kind, "aggs": case["aggs"], "subcubes": case["subcubes"], "regime": regime,
                     "dense_shapes": [list(numpy.asarray(d).shape) for d in case["dense"]], "poolsizes": case["poolsizes"]})
+
+
+def edited_between_pooled_runs(ctx, case, feat, h):
+    """ONE cube object evaluated pooled, its data edited in place (same shapes, same common values, same number of
+    entries), evaluated pooled again: the second result is the serial result over the data as they are now."""
+    import catii
+
+    cube = pooled.build_cube(case)
+    cube.parallel = True
+    cube.poolsize = case["poolsizes"][0]
+    cube.calculate(pooled.make_funcs(case))
+    rng = numpy.random.default_rng(case.get("sseed", 0) + 77)
+    edited = False
+    if case["kind"] == "ccube":
+        order = sorted(range(len(cube.dims)), key=lambda i: -len(cube.dims[i].shape))
+        for di in order:
+            x = cube.dims[di]
+            keys = [k for k in x if len(x[k]) >= 2]
+            for k in keys:
+                others = [q for q in x if q[1:] == k[1:] and q[0] != k[0] and len(x[q])]
+                if others:
+                    q = others[int(rng.integers(0, len(others)))]
+                    moved = numpy.array(x[k][: max(1, len(x[k]) // 2)], dtype=numpy.uint32)
+                    before = (len(x), x.common, x.shape)
+                    x.update({q: moved})
+                    edited = (len(x), x.common, x.shape) == before
+                    break
+            if edited:
+                break
+        if not edited:
+            ctx.count("edited_between:no_suitable_entry")
+            return True
+        fresh = catii.ccube([d.copy() for d in cube.dims], interacting_shape=tuple(case["shape"]))
+    else:
+        for a in cube.dims:
+            a = numpy.asarray(a)
+            if a.size >= 2:
+                flat = a.reshape(-1)
+                i, j = int(rng.integers(0, a.size)), int(rng.integers(0, a.size))
+                vals = numpy.unique(flat)
+                flat[i] = vals[int(rng.integers(0, len(vals)))]
+                flat[j] = vals[int(rng.integers(0, len(vals)))]
+                flat[: max(1, a.size // 3)] = flat[: max(1, a.size // 3)][::-1].copy()
+                edited = True
+        if not edited:
+            return True
+        fresh = catii.xcube([numpy.array(a, copy=True) for a in cube.dims], interacting_shape=tuple(case["shape"]))
+    fresh.parallel = False
+    want = pooled.result_bytes(fresh.calculate(pooled.make_funcs(case)))
+    got = pooled.result_bytes(cube.calculate(pooled.make_funcs(case)))
+    ctx.count("edited_between:pooled_again_on_the_same_cube_object")
+    ctx.count("pooled:runs")
+    ctx.evaluation(h + "edited-between", case["subcubes"] >= 3)
+    if got != want:
+        ctx.violation("pooled-differs-from-serial:after-in-place-edit:" + feat,
+                      "the same cube object, evaluated pooled before and after an in-place edit of its data (same shapes, common "
+                      "values and entry counts), returns something else than the serial evaluation of the data as they are now", case)
+        return False
+    return True
 
 
 def many_subcubes_case(rng, kind):
